@@ -45,6 +45,9 @@ struct SessionContext {
 
     uint16_t window_width = 0;
     uint16_t window_height = 0;
+
+    int  input_level = 0;       //! nesting depth of onRecvString() on this session
+    bool delete_later = false;  //! deleteSession() was called while its input was being processed
 };
 
 }
